@@ -91,7 +91,7 @@ func applyC12Tamper(rng *Rng, l *c12Log, other *c12Log, tm *c12Tamper) map[strin
 	var keys []string
 	class := "hash"
 	switch tm.Kind {
-	case "data-flip-payload", "data-truncate-payload", "data-swap", "data-reorder", "data-alter-uncovered", "data-alter-timestamp", "data-alter-index", "data-alter-and-fix-level0", "data-flip-compressed", "data-other-log", "data-delete", "data-duplicate-entry":
+	case "data-flip-payload", "data-truncate-payload", "data-swap", "data-reorder", "data-alter-uncovered", "data-alter-timestamp", "data-alter-index", "data-alter-and-fix-level0", "data-flip-compressed", "data-other-log", "data-delete", "data-duplicate-entry", "data-retype":
 		class = "data"
 	}
 	for k := range l.objs {
@@ -191,6 +191,24 @@ func applyC12Tamper(rng *Rng, l *c12Log, other *c12Log, tm *c12Tamper) map[strin
 		es := decode()
 		es[rng.Intn(len(es))].LeafIndex += int64(1 + rng.Intn(3))
 		m[key] = reencode(es)
+	case "data-retype":
+		// the same certificate bytes presented under the other entry type: an
+		// x509 leaf as a precert_entry with a forged issuer key hash and an empty
+		// (or non-empty) pre_certificate, or a precertificate as an x509 leaf
+		es := decode()
+		e := es[rng.Intn(len(es))]
+		if e.IsPrecert {
+			e.IsPrecert, e.IssuerKeyHash, e.PreCert = false, [32]byte{}, nil
+		} else {
+			e.IsPrecert = true
+			copy(e.IssuerKeyHash[:], rng.Bytes(32))
+			if rng.Bool() {
+				e.PreCert = rng.Bytes(1 + rng.Intn(20))
+			} else {
+				e.PreCert = nil
+			}
+		}
+		m[key] = reencode(es)
 	case "data-alter-and-fix-level0":
 		es := decode()
 		i := rng.Intn(len(es))
@@ -239,7 +257,7 @@ func TestC12Client(t *testing.T) {
 	srv := newC12Server()
 	defer srv.srv.Close()
 	kinds := []string{"none", "hash-flip", "hash-truncate", "hash-swap", "hash-other-log", "hash-delete", "data-flip-payload", "data-truncate-payload", "data-swap", "data-other-log", "data-delete",
-		"data-reorder", "data-duplicate-entry", "data-alter-uncovered", "data-alter-timestamp", "data-alter-index", "data-alter-and-fix-level0", "data-flip-compressed"}
+		"data-reorder", "data-duplicate-entry", "data-alter-uncovered", "data-alter-timestamp", "data-alter-index", "data-alter-and-fix-level0", "data-flip-compressed", "data-retype", "data-retype"}
 	for si, size := range sizes {
 		if si%shards != shard {
 			continue
